@@ -201,4 +201,61 @@ theorem legacy_leak_rearms :
     (runSchedule legacyProtocol legacyRaceFinal
       ([Action.fire 2] ++ List.replicate 5 (Action.timer 2))).aliveTimers = [3] := by decide
 
+
+
+/-! ### executor pools -/
+
+theorem poolBody_spec (fail : Option Nat) (n i : Nat) (p : Pool) (hw : p.workers ≤ p.maxWorkers) :
+    let r := poolBody fail i n p
+    r.1.maxWorkers = p.maxWorkers ∧ p.workers ≤ r.1.workers ∧ r.1.workers ≤ r.1.maxWorkers ∧
+      p.submitted ≤ r.1.submitted ∧ r.1.submitted ≤ p.submitted + n ∧ r.1.shut = p.shut := by
+  induction n generalizing i p with
+  | zero => simp [poolBody, hw]
+  | succ n ih =>
+    unfold poolBody
+    by_cases hf : fail = some i
+    · simp [hf, hw]
+    · simp only [hf, if_false]
+      have hw' : p.submit.workers ≤ p.submit.maxWorkers := by
+        simp only [Pool.submit]
+        exact Nat.min_le_right _ _
+      obtain ⟨h1, h2, h3, h4, h5, h6⟩ := ih (i + 1) p.submit hw'
+      have e1 : p.submit.submitted = p.submitted + 1 := rfl
+      have e2 : p.submit.maxWorkers = p.maxWorkers := rfl
+      have e3 : p.submit.shut = p.shut := rfl
+      have hs : p.workers ≤ p.submit.workers := by
+        show p.workers ≤ min (p.workers + 1) p.maxWorkers
+        omega
+      rw [e1] at h4 h5
+      exact ⟨h1.trans e2, Nat.le_trans hs h2, h3, by omega, by omega, h6.trans e3⟩
+
+/-- a `with`-scoped executor: however many tasks are submitted and wherever the block
+    fails, no worker is left once the block has been left -/
+theorem runPool_with (maxWorkers n : Nat) (fail : Option Nat) :
+    (runPool .withStmt maxWorkers n fail).workers = 0 ∧
+    (runPool .withStmt maxWorkers n fail).shut = true := by
+  simp [runPool, Pool.shutdown]
+
+/-- an executor that is kept on an object: after the first accepted submission at least
+    one worker exists and nothing ever joins it -/
+theorem runPool_stored (maxWorkers n : Nat) (fail : Option Nat) (hm : 0 < maxWorkers)
+    (hn : 0 < n) (hf : fail ≠ some 0) :
+    0 < (runPool .stored maxWorkers n fail).workers ∧
+    (runPool .stored maxWorkers n fail).shut = false := by
+  cases n with
+  | zero => exact absurd hn (Nat.lt_irrefl 0)
+  | succ n =>
+    simp only [runPool, poolBody, hf, if_false]
+    have hw : (Pool.fresh maxWorkers).submit.workers ≤ (Pool.fresh maxWorkers).submit.maxWorkers := by
+      simp only [Pool.submit]
+      exact Nat.min_le_right _ _
+    obtain ⟨_, h2, _, _, _, h6⟩ := poolBody_spec fail n 1 (Pool.fresh maxWorkers).submit hw
+    constructor
+    · have : 0 < (Pool.fresh maxWorkers).submit.workers := by
+        simp only [Pool.submit, Pool.fresh]
+        omega
+      exact Nat.lt_of_lt_of_le this h2
+    · rw [h6]
+      rfl
+
 end OQuPyVerif.Progress
